@@ -139,17 +139,27 @@ def obligations(tier, sc):
                   oracle="independent tiler: accepted iff header ok; step result vs reference; all accesses inside the exact-size object; cursor strictly advances",
                   assumptions=["open/fstat/mmap/close stubs return the harness' exact-size object"])))
 
+    obs.append(Obligation(
+        name="N_next_ev_size_any_length", harness="C19/evsize.c", srcs=["src/rt/ovni.c", "src/emu/path.c", "src/parson.c"], unwind=30, timeout=600,
+        desc=dict(functions=["next_ev_size (src/emu/stream.c)", "ovni_ev_size", "ovni_payload_size", "get_jumbo_payload_size (src/rt/ovni.c)"],
+                  symbolic="ghost stream length up to 2^62 bytes, the 16 bytes of event header + jumbo size word (all values, incl. sizes >= 2^31)",
+                  bound="one event at the start of a stream of any length except 16..27 remaining bytes (covered by the <=64-byte queries); only min(avail, 28) bytes are backed by memory (END-ALIGNED)",
+                  out="the bytes of the payload itself (never looked at by the size computation)",
+                  oracle="independent reference length L: accepted iff L fits in the stream and L <= INT_MAX; accepted => ovni_ev_size() == L > 0 (strict cursor progress, no "
+                         "stall or backward step for jumbo sizes >= 2^31); no read outside the bytes that exist",
+                  assumptions=[])))
+    tmx, tsteps = (40, 3) if tier == "quick" else (56, 4)
     # Twin of the obligation above in which CBMC's whole-union lvalue strictness cannot fire: no jumbo-flagged byte has 4..15 bytes
     # behind its would-be header, so `ev->payload.jumbo.size` is either fully backed (>= 16 bytes) or a REAL over-read (< 4 bytes).
     # Without it a real over-read at that line can hide behind a benign counterexample of the same CBMC property (seen in the kill test).
     obs.append(Obligation(
         name="stream_truncated_jumbo_tail", harness="C19/stream.c",
-        defines=["MAXSZ=%d" % mx, "NSTEPS=%d" % steps, "NO_PARTIAL_JUMBO"],
+        defines=["MAXSZ=%d" % tmx, "NSTEPS=%d" % tsteps, "NO_PARTIAL_JUMBO"],
         srcs=["src/rt/ovni.c", "src/emu/path.c", "src/parson.c"],
-        unwind=mx + 2, timeout=900,
+        unwind=tmx + 2, timeout=900,
         desc=dict(functions=["load_obs", "check_stream_header", "stream_step", "next_ev_size", "ovni_ev_size", "ovni_payload_size", "get_jumbo_payload_size"],
-                  symbolic="file size 0..%d, every byte of the file, clock offset, unsorted flag" % mx,
-                  bound="stream.obs of <=%d bytes, <=%d stream_step calls; no byte with the jumbo bit set at an offset that leaves 4..15 bytes behind a 12-byte header" % (mx, steps),
+                  symbolic="file size 0..%d, every byte of the file, clock offset, unsorted flag" % tmx,
+                  bound="stream.obs of <=%d bytes, <=%d stream_step calls; no byte with the jumbo bit set at an offset that leaves 4..15 bytes behind a 12-byte header" % (tmx, tsteps),
                   out="the excluded byte patterns (covered by stream_arbitrary_bytes, where CBMC's strictness on partly backed unions is filtered by native replay)",
                   oracle="as stream_arbitrary_bytes; here every CBMC pointer failure on the jumbo size word is a real read past the end of the file",
                   assumptions=["open/fstat/mmap/close stubs return the harness' exact-size object"])))
@@ -204,7 +214,7 @@ def obligations(tier, sc):
     kf_sort = ["known finding excluded (-DKF_SORT_CLOCK63): an event clock >= 2^63 (cmp_ev compares as int64_t, ring_check/find_destination as uint64_t: die())"] if not NO_KF else []
     # one sort plan from the state stream_winsort() is in at a closing marker: (bytes, first region event, closing marker, look-back size)
     plans = [(40, 1, 2, 6), (48, 1, 3, 6), (48, 2, 3, 2)] if tier == "quick" else \
-            [(48, 1, 2, 6), (48, 1, 3, 6), (48, 2, 3, 2), (48, 2, 3, 6), (48, 1, 3, 2), (56, 1, 3, 6), (56, 2, 3, 3)]
+            [(48, 1, 2, 6), (48, 1, 3, 6), (48, 2, 3, 2), (48, 2, 3, 6), (48, 1, 3, 2), (52, 1, 3, 6), (56, 2, 3, 3)]
     for mx, a, b, rs in plans:
         wit = (["W_SORTED"] if rs >= b + 2 else []) + (["W_CANNOT"] if rs <= 2 else [])
         obs.append(sort_ob("S_sortplan_%d_a%d_b%d_r%d" % (mx, a, b, rs), mx,
